@@ -32,6 +32,7 @@ func runC19(r *an.Run) {
 	lineInfoReceiver(r, "R3-line-map")
 	r.Rule("R2-token-agreement")
 	c19NameIndex(r)
+	patchBytesUnaltered(r, "R5-positions-are-offsets-into-the-users-file")
 }
 
 var positionedHelpers = map[string]string{
